@@ -344,6 +344,15 @@ def _mvn(stream, mean, cov, size):
                 e.assume_lazy(s == cf[i * p + j])
                 if i != j:
                     e.assume_lazy(s == cf[j * p + i])
+            # consequence of L L^T = C over the reals (sum of squares), stated to spare the solver:
+            # a zero variance forces a zero row of the factor
+            d = cf[i * p + i]
+            if is_sym(d):
+                zero = (d == 0)
+                rowz = z3.And([(L[i][t] == 0).t for t in range(p)])
+                e.assume_lazy(z3.Implies(zero.t, rowz) if isinstance(zero, SB) else (rowz if zero else z3.BoolVal(True)))
+            elif d == 0:
+                e.assume_lazy(z3.And([(L[i][t] == 0).t for t in range(p)]))
     k = stream.k
     stream.k += 1
     kk = z3.IntVal(k)
